@@ -34,7 +34,11 @@ impl TraitHandler for OrdEnumHandler {
 
         let mut all_unit = true;
 
+        let mut discriminant_arms_token_stream = proc_macro2::TokenStream::new();
+
         if let Data::Enum(data) = &ast.data {
+            discriminant_arms_token_stream.extend(DiscriminantType::discriminant_arms(data));
+
             for variant in data.variants.iter() {
                 let _ = TypeAttributeBuilder {
                     enable_flag: false, enable_bound: false
@@ -209,9 +213,10 @@ impl TraitHandler for OrdEnumHandler {
             cmp_token_stream.extend(quote!(::core::cmp::Ordering::Equal));
         } else {
             let discriminant_cmp = quote! {
-                unsafe {
-                    ::core::cmp::Ord::cmp(&*<*const _>::from(self).cast::<#discriminant_type>(), &*<*const _>::from(other).cast::<#discriminant_type>())
-                }
+                <::core::primitive::#discriminant_type as ::core::cmp::Ord>::cmp(
+                    &match self { #discriminant_arms_token_stream },
+                    &match other { #discriminant_arms_token_stream },
+                )
             };
 
             cmp_token_stream.extend(if all_unit {
